@@ -2,7 +2,8 @@
    Statements only; proofs are in Proofs/ZoneText*.v.  Model: Model/ZoneTextM.v. *)
 From DV Require Import Base.Prelude Model.NameM Model.ZoneTextM.
 From DV Require Import Proofs.ZoneTextBase Proofs.ZoneTextInv Proofs.ZoneTextRespell Proofs.ZoneTextLex
-  Proofs.ZoneTextAcc Proofs.ZoneTextRecord Proofs.ZoneTextSweep Proofs.ZoneTextRoundtrip.
+  Proofs.ZoneTextAcc Proofs.ZoneTextRecord Proofs.ZoneTextSweep Proofs.ZoneTextRoundtrip Proofs.ZoneTextNames.
+From DV Require Import Proofs.NameValid Proofs.NameText.
 From Coq Require Import Permutation.
 Open Scope Z_scope.
 
@@ -32,6 +33,29 @@ Theorem zone_roundtrip : forall (c : cfg) (st : style) (zo : name),
     from_text c text = Ok (match nodes' with [] => c_origin c | _ => Some zo end, nodes').
 Proof. exact zone_roundtrip_proof. Qed.
 Print Assumptions zone_roundtrip.
+
+(* The per-name premise of zone_roundtrip holds for EVERY valid owner name (all 256 octet values,
+   names printed as stored, i.e. the default ZoneStyle/to_text name options) - by C01's text round
+   trip and C06's relativize/derelativize laws.  Relativized zone: the stored name is relative and
+   name + origin fits in 255 octets; absolute zone: the stored name is inside the origin. *)
+Theorem owner_roundtrip_relativized : forall (c : cfg) (st : style) (zo n : name),
+  Valid zo /\ AllBytes zo /\ is_absolute zo = true -> st_origin st = None ->
+  c_rel c = true -> Valid n -> AllBytes n -> is_absolute n = false -> Valid (n ++ zo) ->
+  owner_ok c st zo n (NameM.to_text n) (n ++ zo).
+Proof. exact owner_ok_relativized. Qed.
+Print Assumptions owner_roundtrip_relativized.
+
+Theorem owner_roundtrip_absolute : forall (c : cfg) (st : style) (zo n : name),
+  st_origin st = None ->
+  c_rel c = false -> Valid n -> AllBytes n -> is_absolute n = true -> is_subdomain n zo = true ->
+  owner_ok c st zo n (NameM.to_text n) n.
+Proof. exact owner_ok_absolute. Qed.
+Print Assumptions owner_roundtrip_absolute.
+
+Theorem origin_roundtrip : forall zo : name,
+  Valid zo /\ AllBytes zo /\ is_absolute zo = true -> origin_ok zo.
+Proof. exact origin_ok_valid. Qed.
+Print Assumptions origin_roundtrip.
 
 (* the printer's name sort only reorders the names *)
 Theorem printed_order_permutation : forall st nodes, Permutation (printed_order st nodes) nodes.
@@ -159,8 +183,8 @@ Proof.
       | |- soa_ok _ _ _ _ => unfold soa_ok; vm_compute; first [intros _; reflexivity | intros HH; discriminate HH]
       | |- key_fresh _ _ => unfold key_fresh; repeat (apply Forall_cons; [vm_compute; reflexivity|]); apply Forall_nil
       | |- rds_fresh _ _ _ => unfold rds_fresh; repeat (apply Forall_cons; [vm_compute; reflexivity|]); apply Forall_nil
-      | |- compat _ _ => vm_compute; first [reflexivity | exact I]
-      | |- True => exact I
+      | |- compat _ _ => vm_compute; first [reflexivity | exact Logic.I]
+      | |- True => exact Logic.I
       | |- _ = _ => vm_compute; reflexivity
       end.
     + exists [64], ex_origin. repeat split; vm_compute; reflexivity.
